@@ -55,7 +55,7 @@ def specPrefix : Spec.RtmpChunk.Sender → List Spec.RtmpChunk.ChunkEv → List 
     (List Spec.RtmpChunk.Message × Nat × Bool × Bool)
   | _, [], acc, n, noExt, ends => (acc.reverse, n, noExt, ends)
   | s, e :: tr, acc, n, noExt, ends =>
-    match Spec.RtmpChunk.step s e with
+    match Spec.RtmpChunk.step false s e with
     | none => (acc.reverse, n, noExt && !decide (Spec.RtmpChunk.UsesExtDelta s e), ends)
     | some (s', out) =>
       specPrefix s' tr (match out with | some m => m :: acc | none => acc) (n + 1)
@@ -70,7 +70,11 @@ def handle (op : String) (args : List String) : Option String :=
   | "rtmp.spec.chunk", [tr] => do
     let tr ← parseTrace tr
     let (ms, n, noExt, ends) := specPrefix {} tr [] 0 true true
-    pure s!"{toHex (Spec.RtmpChunk.specBytes tr)} {specMsgsStr ms} {n}/{tr.length} {b01 noExt} {b01 (ends && n == tr.length)} {b01 (decide (Spec.RtmpChunk.Strict tr))}"
+    -- last field: NOT the specification — the messages under the "extended timestamp is always absolute"
+    -- reading (K2), `=` when they are the spec's
+    let abs := Spec.RtmpChunk.messagesAbsExt tr
+    let absS := if n != tr.length then "-" else if abs == ms then "=" else specMsgsStr abs
+    pure s!"{toHex (Spec.RtmpChunk.specBytes tr)} {specMsgsStr ms} {n}/{tr.length} {b01 noExt} {b01 (ends && n == tr.length)} {b01 (decide (Spec.RtmpChunk.Strict tr))} {absS}"
   -- the same through the definitions the theorems use (slower: one run per predicate); for cross-checking
   | "rtmp.spec.defs", [tr] => do
     let tr ← parseTrace tr
